@@ -11,6 +11,12 @@ import (
 
 type commandProposal struct {
 	ch chan proposalResult
+	// regionID/peerID identify the proposer as recorded in the command header.
+	// Request ids are only unique per store (and are shared by all regions of a
+	// store), so an applied entry may complete a pending proposal only when it
+	// was proposed by the same peer of the same region.
+	regionID uint64
+	peerID   uint64
 }
 
 type proposalResult struct {
@@ -43,6 +49,13 @@ func (cp *commandPipeline) nextProposalID() uint64 {
 }
 
 func (cp *commandPipeline) registerProposal(id uint64) (*commandProposal, error) {
+	return cp.registerProposalFor(&pb.CmdHeader{RequestId: id})
+}
+
+// registerProposalFor registers a pending proposal keyed by the header's request
+// id and remembers which region/peer proposed it.
+func (cp *commandPipeline) registerProposalFor(hdr *pb.CmdHeader) (*commandProposal, error) {
+	id := hdr.GetRequestId()
 	if cp == nil || id == 0 {
 		return nil, nil
 	}
@@ -51,7 +64,11 @@ func (cp *commandPipeline) registerProposal(id uint64) (*commandProposal, error)
 	if _, exists := cp.proposals[id]; exists {
 		return nil, fmt.Errorf("commandPipeline: duplicate proposal id %d", id)
 	}
-	prop := &commandProposal{ch: make(chan proposalResult, 1)}
+	prop := &commandProposal{
+		ch:       make(chan proposalResult, 1),
+		regionID: hdr.GetRegionId(),
+		peerID:   hdr.GetPeerId(),
+	}
 	cp.proposals[id] = prop
 	return prop, nil
 }
@@ -66,12 +83,25 @@ func (cp *commandPipeline) removeProposal(id uint64) {
 }
 
 func (cp *commandPipeline) completeProposal(id uint64, resp *pb.RaftCmdResponse, err error) {
+	cp.completeProposalFor(&pb.CmdHeader{RequestId: id}, resp, err)
+}
+
+// completeProposalFor hands the apply result of the entry carrying hdr to the
+// local proposal waiting for it. An entry proposed by another store, or for
+// another region, that merely shares the request id leaves the proposal pending.
+func (cp *commandPipeline) completeProposalFor(hdr *pb.CmdHeader, resp *pb.RaftCmdResponse, err error) {
+	id := hdr.GetRequestId()
 	if cp == nil || id == 0 {
 		return
 	}
 	cp.mu.Lock()
 	prop := cp.proposals[id]
-	delete(cp.proposals, id)
+	if prop != nil && (prop.regionID != hdr.GetRegionId() || prop.peerID != hdr.GetPeerId()) {
+		prop = nil
+	}
+	if prop != nil {
+		delete(cp.proposals, id)
+	}
 	cp.mu.Unlock()
 	if prop == nil {
 		return
@@ -104,10 +134,10 @@ func (cp *commandPipeline) applyEntries(entries []myraft.Entry) error {
 		resp, applyErr := cp.applier(req)
 		if applyErr != nil {
 			requestID := req.GetHeader().GetRequestId()
-			cp.completeProposal(requestID, nil, applyErr)
+			cp.completeProposalFor(req.GetHeader(), nil, applyErr)
 			return fmt.Errorf("commandPipeline: apply request %d failed: %w", requestID, applyErr)
 		}
-		cp.completeProposal(req.GetHeader().GetRequestId(), resp, nil)
+		cp.completeProposalFor(req.GetHeader(), resp, nil)
 	}
 	return nil
 }
